@@ -40,6 +40,7 @@ package nodeslo
 // getSystemConfigSpec: same selection; a matching entry without a strategy falls through to the cluster strategy; the node's
 // bandwidth annotation (apis/extension.GetNodeTotalBandwidth) overrides TotalNetworkBandwidth or yields (nil, err).
 //@ spec func sysPick(cfg *configuration.SystemCfg, k int) *slov1alpha1.SystemStrategy = cfg.NodeStrategies[k].SystemStrategy != nil ? spec_copySys(cfg.NodeStrategies[k].SystemStrategy) : spec_copySys(cfg.ClusterStrategy)
+//@ spec func sysSrc(cfg *configuration.SystemCfg, k int) *slov1alpha1.SystemStrategy = cfg.NodeStrategies[k].SystemStrategy != nil ? cfg.NodeStrategies[k].SystemStrategy : cfg.ClusterStrategy
 //@ func getSystemConfigSpec [C20]
 //@   requires node != nil && cfg != nil
 //@   ensures #err: result1 != nil ==> result0 == nil
@@ -50,7 +51,8 @@ package nodeslo
 //@   loop 1 invariant 0 <= $i && $i <= len(cfg.NodeStrategies)
 //@   loop 1 invariant forall j int :: 0 <= j && j < $i ==> !selHit(cfg.NodeStrategies[j].NodeSelector, node.Labels)
 //@   loop 1 invariant nodeSystemConfig == nil
-//@   ensures #bwkept: result1 == nil && !has(node.Annotations, extension.AnnotationNodeBandwidth) ==> result0.TotalNetworkBandwidth == old(result0.TotalNetworkBandwidth)
+//@   ensures #bwkept-first: forall k int :: result1 == nil && !has(node.Annotations, extension.AnnotationNodeBandwidth) && 0 <= k && k < len(cfg.NodeStrategies) && selHit(cfg.NodeStrategies[k].NodeSelector, node.Labels) && (forall j int :: 0 <= j && j < k ==> !selHit(cfg.NodeStrategies[j].NodeSelector, node.Labels)) && old(sysSrc(cfg, k)) != nil ==> result0.TotalNetworkBandwidth == old(sysSrc(cfg, k).TotalNetworkBandwidth)
+//@   ensures #bwkept-cluster: result1 == nil && !has(node.Annotations, extension.AnnotationNodeBandwidth) && (forall j int :: 0 <= j && j < len(cfg.NodeStrategies) ==> !selHit(cfg.NodeStrategies[j].NodeSelector, node.Labels)) && cfg.ClusterStrategy != nil ==> result0.TotalNetworkBandwidth == old(cfg.ClusterStrategy.TotalNetworkBandwidth)
 
 // getHostApplicationConfig: the applications of the first matching node entry, else the cluster-wide ones, copied element by
 // element into a fresh slice (DeepCopyInto is inlined: scalar fields equal, CgroupPath copied into a new object).
@@ -140,7 +142,6 @@ package nodeslo
 //@   loop 1 invariant forall j int :: 0 <= j && j < len($range) ==> $range[j].NodeSelector == burstSel($range, j)
 
 //@ spec func sysPatch(ns []configuration.NodeSystemStrategy, i int) *slov1alpha1.SystemStrategy = old(ns[i].SystemStrategy)
-//@ spec func sysPatchBW(ns []configuration.NodeSystemStrategy, i int) resource.Quantity = old(ns[i].SystemStrategy.TotalNetworkBandwidth)
 // cluster level: the cluster bandwidth is the default's, unless the parsed cluster strategy pc sets one (then it is pc's).
 //@ spec func sysClusterBW(c *slov1alpha1.SystemStrategy) bool = c.TotalNetworkBandwidth == spec_defSys().TotalNetworkBandwidth || (exists pc *slov1alpha1.SystemStrategy :: {spec_ovSys(spec_copySys(spec_defSys()), pc)} pc != nil && (allocated(pc) || fresh(pc)) && !pc.TotalNetworkBandwidth.IsZero() && c == spec_ovSys(spec_copySys(spec_defSys()), pc) && c.TotalNetworkBandwidth == pc.TotalNetworkBandwidth)
 //@ spec func bwKept() bool = forall q *slov1alpha1.SystemStrategy :: allocated(q) ==> q.TotalNetworkBandwidth == old(q.TotalNetworkBandwidth)
@@ -173,15 +174,18 @@ package nodeslo
 //@   loop 1 invariant forall j int :: 0 <= j && j < len($range) ==> $range[j].NodeSelector == sysSel($range, j)
 // Field-level layering of totalNetworkBandwidth (the field MergeCfg alone gets wrong, see mergeSystemStrategy): an entry that
 // leaves it unset (no strategy, or zero Quantity) delivers the value of the next layer: node <- cluster <- default.
-//@   ensures #F_bandwidth: old(present) && result1 == nil ==> (forall i int :: 0 <= i && i < len(result0.NodeStrategies) && (sysPatch(result0.NodeStrategies, i) == nil || sysPatchBW(result0.NodeStrategies, i).IsZero()) ==> result0.NodeStrategies[i].SystemStrategy.TotalNetworkBandwidth == result0.ClusterStrategy.TotalNetworkBandwidth)
-//@   ensures #F_bandwidth_set: old(present) && result1 == nil ==> (forall i int :: 0 <= i && i < len(result0.NodeStrategies) && sysPatch(result0.NodeStrategies, i) != nil && !sysPatchBW(result0.NodeStrategies, i).IsZero() ==> result0.NodeStrategies[i].SystemStrategy.TotalNetworkBandwidth == sysPatchBW(result0.NodeStrategies, i))
+//@   ensures #F_bandwidth: old(present) && result1 == nil ==> (forall i int :: 0 <= i && i < len(result0.NodeStrategies) && (sysPatch(result0.NodeStrategies, i) == nil || sysPatch(result0.NodeStrategies, i).TotalNetworkBandwidth.IsZero()) ==> result0.NodeStrategies[i].SystemStrategy.TotalNetworkBandwidth == result0.ClusterStrategy.TotalNetworkBandwidth)
+//@   ensures #F_bandwidth_set: old(present) && result1 == nil ==> (forall i int :: 0 <= i && i < len(result0.NodeStrategies) && sysPatch(result0.NodeStrategies, i) != nil && !sysPatch(result0.NodeStrategies, i).TotalNetworkBandwidth.IsZero() ==> result0.NodeStrategies[i].SystemStrategy.TotalNetworkBandwidth == sysPatch(result0.NodeStrategies, i).TotalNetworkBandwidth)
 //@   ensures #F_bandwidth_cluster: old(present) && result1 == nil ==> sysClusterBW(result0.ClusterStrategy)
 //@   loop 1 invariant #F_bandwidth_cluster: sysClusterBW(clusterMerged) && (allocated(spec_defSys()) || fresh(spec_defSys()))
 //@   ensures #bwframe: bwKept()
 //@   loop 1 invariant #bwKept: bwKept()
-//@   loop 1 invariant #F_bandwidth: forall j int :: 0 <= j && j < $i && (sysPatch($range, j) == nil || sysPatchBW($range, j).IsZero()) ==> $range[j].SystemStrategy.TotalNetworkBandwidth == clusterMerged.TotalNetworkBandwidth
-//@   loop 1 invariant #F_bandwidth_set: forall j int :: 0 <= j && j < $i && sysPatch($range, j) != nil && !sysPatchBW($range, j).IsZero() ==> $range[j].SystemStrategy.TotalNetworkBandwidth == sysPatchBW($range, j)
-//@   loop 1 invariant #patchAlloc: forall j int :: 0 <= j && j < len($range) && sysPatch($range, j) != nil ==> allocated(sysPatch($range, j))
+//@   loop 1 invariant #F_bandwidth: forall j int :: 0 <= j && j < $i && (sysPatch($range, j) == nil || sysPatch($range, j).TotalNetworkBandwidth.IsZero()) ==> $range[j].SystemStrategy.TotalNetworkBandwidth == clusterMerged.TotalNetworkBandwidth
+//@   loop 1 invariant #F_bandwidth_set: forall j int :: 0 <= j && j < $i && sysPatch($range, j) != nil && !sysPatch($range, j).TotalNetworkBandwidth.IsZero() ==> $range[j].SystemStrategy.TotalNetworkBandwidth == sysPatch($range, j).TotalNetworkBandwidth
+// The patch objects were created by json.Unmarshal (not allocated at entry). What the loop needs of a PROCESSED entry j: its patch
+// object exists (so the overlay object the helper creates and writes later is a different object); the bandwidth relations
+// above read the patch's bandwidth in the CURRENT state and are preserved because only new overlay objects are written.
+//@   loop 1 invariant #patchAlloc: forall j int :: 0 <= j && j < $i && sysPatch($range, j) != nil ==> (allocated(sysPatch($range, j)) || fresh(sysPatch($range, j)))
 
 // ResourceQOS: the built-in default of this section is a new EMPTY strategy object (qosEmpty), not a named constant.
 //@ spec func qosPatch(ns []configuration.NodeResourceQOSStrategy, i int) *slov1alpha1.ResourceQOSStrategy = old(ns[i].ResourceQOSStrategy)
